@@ -309,6 +309,17 @@ def as_seq(ex, v, node=None):
         return v
     if hasattr(v, "sx_seq"):
         return v.sx_seq(ex)
+    if isinstance(v, (list, tuple)) and len(v) == 1:
+        return Seq(1, lambda k, x=v[0]: x, "list" if isinstance(v, list) else "tuple")
+    if isinstance(v, (list, tuple)) and v and all(isinstance(x, z3.ExprRef) for x in v):
+        def pick(k, v=v):
+            if isinstance(k, int):
+                return v[k]
+            out = v[-1]
+            for j in range(len(v) - 2, -1, -1):
+                out = z3.If(k == j, v[j], out)
+            return out
+        return Seq(len(v), pick, "list" if isinstance(v, list) else "tuple")
     raise U(f"{type(v).__name__} is not a sequence", node)
 
 
@@ -496,21 +507,48 @@ def contains(ex, container, item, node):
     raise U(f"membership in {type(container).__name__}", node)
 
 
+class Selection:
+    """The positions t in [0,n) with keep(t), in increasing order: sel: [0,M) -> [0,n) strictly monotone,
+    selidx its inverse on the kept positions.  (Uniquely determined by n and keep.)"""
+
+    def __init__(self, ctx, n, keep):
+        self.n, self.keep = n, keep
+        M = self.M = ctx.int("M")
+        sel = self.sel = ctx.func("sel", z3.IntSort(), z3.IntSort())
+        cnt = self.selidx = ctx.func("selidx", z3.IntSort(), z3.IntSort())
+        ctx.assume(z3.And(M >= 0, M <= n))
+        ctx.assume(ctx.forall_range(0, M, lambda j: z3.And(0 <= sel(j), sel(j) < n, keep(sel(j)), cnt(sel(j)) == j),
+                                    pat=lambda j: sel(j)))
+        ctx.assume(ctx.forall_range2(0, M, lambda j, l: sel(j) < sel(l)))
+        ctx.assume(ctx.forall_range(0, n, lambda t: z3.Implies(keep(t), z3.And(0 <= cnt(t), cnt(t) < M, sel(cnt(t)) == t)),
+                                    pat=lambda t: cnt(t)))
+
+
+def selection_for(ex, n, keep):
+    """One Selection per (n, predicate): a mask and a comprehension filter over the same predicate share it
+    (keyed by the predicate's term at a canonical position; a predicate that creates fresh symbols never matches)."""
+    K = z3.Int("k!selection")
+    try:
+        nk = z3.simplify(n).sexpr() if isinstance(n, z3.ExprRef) else str(n)
+        key = (nk, z3.simplify(keep(K)).sexpr() if not isinstance(keep(K), bool) else str(keep(K)))
+    except Exception:
+        key = None
+    table = ex.__dict__.setdefault("selections", {})
+    if key is not None and key in table:
+        return table[key]
+    s = Selection(ex.ctx, n, keep)
+    if key is not None:
+        table[key] = s
+    return s
+
+
 def filtered_seq(ex, seq, item, keep, node):
     """[item(k) for k in range(n) if keep(k)] for symbolic n: a Seq of symbolic length M with a
     strictly monotone ghost selection function sel: [0,M) -> [0,n)."""
-    ctx = ex.ctx
-    M = ctx.int("M")
-    sel = ctx.func("sel", z3.IntSort(), z3.IntSort())
-    cnt = ctx.func("selidx", z3.IntSort(), z3.IntSort())
-    ctx.assume(z3.And(M >= 0, M <= seq.n))
-    ctx.assume(ctx.forall_range(0, M, lambda j: z3.And(0 <= sel(j), sel(j) < seq.n, keep(sel(j)), cnt(sel(j)) == j),
-                                pat=lambda j: sel(j)))
-    ctx.assume(ctx.forall_range2(0, M, lambda j, l: sel(j) < sel(l)))
-    ctx.assume(ctx.forall_range(0, seq.n, lambda t: z3.Implies(keep(t), z3.And(0 <= cnt(t), cnt(t) < M, sel(cnt(t)) == t)),
-                                pat=lambda t: cnt(t)))
-    out = Seq(M, lambda j: item(sel(j)))
-    out.sel, out.selidx, out.src_n, out.keep = sel, cnt, seq.n, keep
+    s = selection_for(ex, seq.n, keep)
+    out = Seq(s.M, lambda j: item(s.sel(j)))
+    out.sel, out.selidx, out.src_n, out.keep = s.sel, s.selidx, seq.n, keep
+    out.selection = s
     ex.last_filter = out
     return out
 
